@@ -14,6 +14,7 @@ def load_legacy():
 
 class C05(PropBase):
     id = "C05"
+    shown_columns = ('ALT B', 'ALT G')
     corr_fields = ['alt', 'alts']
     lean_modules = ["SqModel.Props.C05", "SqModel.Proofs.BridgeBits", "SqModel.Proofs.Bridge", "SqModel.Proofs.BridgeRat", "SqModel.Proofs.BridgePlane"]
     extractors = ["ma_code", "trans"]
